@@ -673,13 +673,20 @@ MANIFEST = dict(
               "correspondence on random operation sequences with a byte model of the base allocation",
     text="Proved: x[i] accepted iff 0<=i<n else IndexError; x[i:j] accepted iff no step and 0<=i<=j<=n (bounds within "
          "Py_ssize_t) else IndexError, state untouched; slice view at x+i*size of length j-i aliasing x[i+k]; slice "
-         "assignment from an iterable needs exactly j-i values; (p+i)[j] = p[i+j]; (p+i)-p = i; owning pointer only "
+         "assignment from an iterable needs exactly j-i values (helper store_items only: C16_slice_assignment_count; the "
+         "bytes / same-type cdata fast paths are correspondence-only); (p+i)[j] = p[i+j]; (p+i)-p = i; p - q on the "
+         "REGENERATED arithmetic of cdata_sub (C16/Gen.v gen_sub_prog: guard constant, signed-or-size_t operands of the "
+         "`%` test and of the division, interpreted by Model.sub_arith with C's truncating Z.rem/Z.quot): "
+         "C16_ptr_sub_exact (p - q = k iff the signed byte distance is k*itemsize, negative k included), "
+         "C16_ptr_sub_valueerror_iff_not_multiple, C16_ptr_sub_total, C16_ptr_sub_voidp; owning pointer only "
          "index 0; offsetof('T[]',i) = i*size or OverflowError; addressof(x,i) = x+i in both directions when i*size fits "
          "Py_ssize_t; history invariant: after any sequence of index/slice/slice-assignment/p+i/p-i/p-q/addressof "
          "operations in which memory is reached through array views, no access escaped the owned array and every array "
          "view lies inside it. The two defects found (slice bounds beyond Py_ssize_t -> OverflowError; offsetof with "
          "zero-size items -> SIGFPE) are fixed in /repo (85f0b65, d1f06da); the model follows two flags regenerated "
-         "from the source (C16/Gen.v). Thorough tier repeats the sequences on an ASan/UBSan build.",
+         "from the source (C16/Gen.v) besides gen_sub_prog; everything else in Model.v (guard lists of "
+         "_cdata_get_indexed_ptr / _cdata_getslicearg, the type test of cdata_sub) is hand-written and "
+         "correspondence-only. Thorough tier repeats the sequences on an ASan/UBSan build.",
     note="Trusted: Coq kernel; hand model C16/Model.v (tied by differential testing); the reference semantics in "
          "tools/props/c16.py; CPython int/slice objects. Value conversion is out of scope (C03/C05). Theorems closed "
          "under the global context.",
